@@ -70,7 +70,20 @@ def judge(R, what, case_desc, rec):
         elif r.startswith("BASEEXC"):
             R.violation({"kind": "non-ordinary-exception", "call": name.split("(")[0], "exc": r}, f"{name} raised {r}", case_desc)
     if rec["changed"]:
-        R.violation({"kind": "process-state-changed", "what": sorted(rec["changed"])}, f"process-wide state changed: {json.dumps(rec['changed'])[:300]}", case_desc)
+        sch = (case_desc.get("case") or {}).get("schema") or {}
+        via = "RandomGeneratorNode.bit_generator" if sorted(rec["changed"]) == ["np.random"] and "RandomGeneratorNode" in json.dumps(sch) else None
+        R.violation({"kind": "process-state-changed", "what": sorted(rec["changed"]), "via": via}, f"process-wide state changed: {json.dumps(rec['changed'])[:300]}", case_desc)
+
+
+def probe_cases(snap):
+    """fixed witness of the open finding D03/C19: a schema edit of one string makes load() call numpy.random.seed()"""
+    J = lambda v: {"__class__": "str", "__module__": "builtins", "__loader__": "JsonNode", "content": json.dumps(v), "is_json": True}
+    tn = {"__class__": "str", "__module__": "builtins", "__loader__": "TypeNode", "__id__": 9}
+    D = {"__class__": "dict", "__module__": "builtins", "__loader__": "DictNode", "__id__": 10, "content": {"bit_generator": J("seed")},
+         "key_types": {"__class__": "list", "__module__": "builtins", "__loader__": "ListNode", "content": [tn], "__id__": 11}}
+    sch = {"__class__": "Generator", "__module__": "numpy.random._generator", "__loader__": "RandomGeneratorNode", "__id__": 1, "protocol": 1,
+           "content": {"bit_generator": D}}
+    return [{"schema": sch, "members": [], "tspec": "none", "tseed": 0, "show": "all", "malformed": True, "wellformed": False, "notes": ["probe: bit_generator='seed'"]}]
 
 
 def run(R, only_cases=None):
@@ -88,7 +101,7 @@ def run(R, only_cases=None):
     rnd = random.Random(R.seed)
     n = 400 if R.tier == "quick" else 4000
     # (a) schema-level mutations: model vs implementation, every aspect
-    cases = only_cases or [G.gen_case(rnd, malformed_p=1.0) for _ in range(n)]
+    cases = only_cases or (probe_cases(snap) + [G.gen_case(rnd, malformed_p=1.0) for _ in range(n)])
     recs, bad, _ = IO.run_batch(R, cases, aspects=("gut", "audit", "vis", "rows"), tag="c19")
     IO.report_disagreements(R, cases, recs, bad, "C19")
     # (b) clean failure observed on the implementation: schema-level ...
@@ -119,7 +132,7 @@ def run(R, only_cases=None):
         for nr in (14, 16, 18):
             sch = ladder_schema(nr)
             t0 = time.time()
-            r = run_workers(R, {"scratch": str(scratch), "alarm": 120}, [{"schema": sch, "members": []}], shards=1)[0]
+            r = run_workers(R, {"scratch": str(scratch), "alarm": 120, "only_audit": True}, [{"schema": sch, "members": []}], shards=1)[0]
             times.append((nr, len(json.dumps(sch)), r["calls"]["get_untrusted_types"][1] if "calls" in r else None))
         R.notes["ladder_audit_seconds"] = times
         if all(t[2] is not None for t in times) and times[2][2] > 0.2 and times[2][2] > 2.5 * max(times[1][2], 1e-3) and times[1][2] > 2.5 * max(times[0][2], 1e-3):
